@@ -22,6 +22,7 @@ mod c15;
 mod c03;
 mod pool;
 mod alloc;
+mod rxsweep;
 
 #[global_allocator]
 static GLOBAL: alloc::Checking = alloc::Checking;
